@@ -136,7 +136,13 @@ fn c_tev(e: &TerminalEvent) -> String {
         TerminalEvent::Mouse(m) => format!("(EMouse {} {} {} {})", c_mname(&m.name), mod_bits(m.mode), m.pos.row, m.pos.col),
         TerminalEvent::CursorPosition(p) => format!("(ECursor {} {})", p.row, p.col),
         TerminalEvent::Size(s) => format!("(ESize {} {} {} {})", s.cells.height, s.cells.width, s.pixels.height, s.pixels.width),
-        TerminalEvent::DecMode { mode, status } => format!("(EDecMode {} {})", *mode as usize, *status as usize),
+        // the mode is identified by its NAME and printed with the number the xterm documents give
+        // to that name (a variant with a wrong discriminant then shows as a failing input)
+        TerminalEvent::DecMode { mode, status } => {
+            let name = format!("{:?}", mode);
+            let num = DOC_DECMODES.iter().find(|(n, _)| *n == name).map(|(_, v)| *v).unwrap_or(*mode as u64);
+            format!("(EDecMode {} {})", num, *status as usize)
+        }
         TerminalEvent::DeviceAttrs(set) => format!("(EDevAttrs {})", cnums(&set.iter().collect::<Vec<_>>())),
         TerminalEvent::KittyImage { id, placement, error } => format!(
             "(EKittyImage {} {} {})",
@@ -643,6 +649,18 @@ pub fn run(input: &Value) -> Case {
 
 const COORDS: [u64; 12] = [0, 1, 7, 8, 9, 10, 98, 99, 254, 255, 9999, 65534];
 const DECMODES: [u64; 9] = [25, 7, 80, 1000, 1003, 1006, 1049, 2026, 2004];
+/// xterm ctlseqs DECSET numbers by the library's variant names (mirror of Printer.xterm_decmodes)
+const DOC_DECMODES: [(&str, u64); 9] = [
+    ("AutoWrap", 7),
+    ("VisibleCursor", 25),
+    ("SixelScrolling", 80),
+    ("MouseReport", 1000),
+    ("MouseMotions", 1003),
+    ("MouseSGR", 1006),
+    ("AltScreen", 1049),
+    ("BracketedPaste", 2004),
+    ("SynchronizedOutput", 2026),
+];
 
 fn g_coord(rng: &mut Rng) -> u64 {
     if rng.chance(2, 3) {
@@ -875,8 +893,14 @@ pub fn generate(rng: &mut Rng, n: usize, tier: &str) -> Vec<Value> {
             }
         }
     }
-    // 2. every DEC mode x every status
-    for m in DECMODES {
+    // 2. every DEC mode x every status: the documented ones plus whatever else from_usize accepts
+    let mut modes: Vec<u64> = DECMODES.to_vec();
+    for code in 0..10000usize {
+        if surf_n_term::terminal::DecMode::from_usize(code).is_some() && !modes.contains(&(code as u64)) {
+            modes.push(code as u64);
+        }
+    }
+    for m in modes {
         for s in 0..5u64 {
             v.push(json!({"reports": [{"t": "decmode", "mode": m, "status": s}], "cuts": []}));
         }
